@@ -213,6 +213,10 @@ func SenderConfig(prop string, r *Rand, tier string) map[string]int64 {
 	// L1 reorgs above the finalized block; the L1 info store is brought in line later (at its next sync step): in
 	// between it holds blocks of the dropped fork, possibly below a finalized pointer that has moved on
 	c["w_l1reorg"] = int64([]int{0, 0, 0, 1, 2, 4}[r.Intn(6)])
+	if prop == "C09" {
+		// C09's subject is the choice of the L1 info root and leaves: its runs see L1 reorgs more often
+		c["w_l1reorg"] = int64([]int{0, 3, 6, 10}[r.Intn(4)])
+	}
 	c["real_proofs"] = 0
 	if prop == "C09" || r.Bool(30) {
 		c["real_proofs"] = 1
@@ -233,6 +237,7 @@ type senderWorld struct {
 	l1synced uint64
 	// l1staleFrom: first block of the L1 info store that belongs to a dropped L1 fork (0: none)
 	l1staleFrom uint64
+	l1staleHold int
 	l2m  *BridgeModel
 	l2s  *BridgeStore
 	l2r  *l2Recorder
@@ -965,19 +970,34 @@ func runSender(prop string, tr *Trace, sc *Script, rec *Recorder, scratch string
 
 	syncL1 := func(to uint64) *Violation {
 		if s.l1staleFrom != 0 {
-			// the L1 info syncer handles the reorg: rewind first
-			if err := s.l1s.Reorg(s.l1staleFrom); err != nil {
-				return &Violation{Oracle: "harness", Detail: fmt.Sprintf("l1 store Reorg(%d): %v", s.l1staleFrom, err)}
+			// the L1 info syncer handles the reorg. Like the real one it only has rows for blocks with events (and
+			// the last block of a download step), and its detector reports the first STORED block whose hash changed,
+			// which may lie above the real fork point
+			first := uint64(0)
+			if err := s.l1s.P.DB().QueryRow("SELECT COALESCE(MIN(num),0) FROM block WHERE num >= ?", s.l1staleFrom).Scan(&first); err != nil {
+				return &Violation{Oracle: "harness", Detail: "l1 store rows: " + err.Error()}
+			}
+			if first != 0 {
+				if err := s.l1s.Reorg(first); err != nil {
+					return &Violation{Oracle: "harness", Detail: fmt.Sprintf("l1 store Reorg(%d): %v", first, err)}
+				}
+				rec.Stats.Inc("l1_store_rewound_after_l1_reorg")
+				if first > s.l1staleFrom {
+					rec.Stats.Inc("l1_store_rewound_from_above_the_fork_point")
+				}
 			}
 			s.l1synced, s.l1staleFrom = s.l1staleFrom-1, 0
-			rec.Stats.Inc("l1_store_rewound_after_l1_reorg")
 		}
-		for s.l1synced < to && s.l1synced < s.l1.HeadNum() {
+		end := min(to, s.l1.HeadNum())
+		for s.l1synced < end {
 			b := s.l1.Canon[s.l1synced+1]
 			mb, _ := b.Payload.(MBlock)
 			mb.Num, mb.Hash = b.Num(), b.Hash
-			if err := s.l1s.ProcessBlock(mb); err != nil {
-				return &Violation{Oracle: "harness", Detail: fmt.Sprintf("l1 store ProcessBlock(%d): %v", b.Num(), err)}
+			// blocks without events leave no row, except the last block of the step (the downloader's marker)
+			if len(mb.Events) > 0 || b.Num() == end {
+				if err := s.l1s.ProcessBlock(mb); err != nil {
+					return &Violation{Oracle: "harness", Detail: fmt.Sprintf("l1 store ProcessBlock(%d): %v", b.Num(), err)}
+				}
 			}
 			s.l1synced++
 		}
@@ -999,6 +1019,15 @@ func runSender(prop string, tr *Trace, sc *Script, rec *Recorder, scratch string
 			int(cfg["w_rel"]), int(cfg["w_move"]), int(cfg["w_fault"]), int(cfg["w_lost"]), int(cfg["w_crash"]), int(cfg["w_losedb"]), int(cfg["w_savefault"]), int(cfg["w_pvodd"]), int(cfg["w_opt"]), int(cfg["w_crashsubmit"]), int(cfg["w_contradict"]), int(cfg["w_l2reorg"]), int(cfg["w_l2reorg"]), int(cfg["w_l1reorg"]), int(cfg["w_savefault"])}
 		if s.l1.HeadNum() <= s.l1.Finalized {
 			wts[19] = 0
+		}
+		if s.l1staleFrom != 0 && s.l1staleHold > 0 {
+			// the L1 info syncer has not noticed the reorg yet (its detector's interval): meanwhile finality moves,
+			// claims arrive and epochs tick
+			s.l1staleHold--
+			wts[2] = 0
+			wts[1] *= 3
+			wts[3] *= 2
+			wts[4] *= 2
 		}
 		if o := s.ag.open(); o == nil || s.nodeIsBuilding() || o.To <= s.l2ReorgFloorWithout(o) {
 			wts[18] = 0
@@ -1038,11 +1067,19 @@ func runSender(prop string, tr *Trace, sc *Script, rec *Recorder, scratch string
 		case 19:
 			return Op{K: "l1reorg", A: []int64{int64(r.U64() >> 1), int64(r.Range(1, 4)), int64(r.Range(1, 5))}}, true
 		case 0:
-			return Op{K: "l1mine", A: []int64{int64(r.U64() >> 1), int64(r.Range(1, 4))}}, true
+			n := r.Range(1, 4)
+			if r.Bool(20) {
+				n = r.Range(5, 15) // the L1 tip moves on by many blocks between two looks
+			}
+			return Op{K: "l1mine", A: []int64{int64(r.U64() >> 1), int64(n)}}, true
 		case 1:
 			return Op{K: "l1fin", A: []int64{int64(r.Range(0, 5))}}, true
 		case 2:
-			return Op{K: "l1sync", A: []int64{int64(r.Range(1, 6))}}, true
+			n := r.Range(1, 6)
+			if r.Bool(25) {
+				n = r.Range(8, 30) // a long download step: rows only for the blocks with events and for its last block
+			}
+			return Op{K: "l1sync", A: []int64{int64(n)}}, true
 		case 3:
 			return Op{K: "l2block", A: []int64{int64(r.U64() >> 1)}}, true
 		case 4:
@@ -1107,14 +1144,30 @@ func runSender(prop string, tr *Trace, sc *Script, rec *Recorder, scratch string
 			}
 			keep := s.l1.HeadNum() - d
 			r := NewRand(uint64(op.Arg(0)))
+			// most of the dropped L1 info updates are included again on the new fork (same exit roots, other block)
+			var carry [][2]common.Hash
+			for _, l := range s.l1g.Model.Leaves {
+				if l.Block > keep && r.Bool(70) {
+					carry = append(carry, [2]common.Hash{l.MER, l.RER})
+				}
+			}
 			s.l1.Rewind(keep)
 			s.l1g.Rebuild(s.l1)
+			// ... right away or behind one or two other blocks
+			for i := r.Intn(3); i > 0; i-- {
+				s.l1.Mine(r.U64(), s.l1g.Fill(r, int(cfg["l1_density"])))
+			}
+			s.l1g.Carry = carry
+			if len(carry) > 0 {
+				rec.Stats.Add("l1_info_updates_included_again_after_an_l1_reorg", int64(len(carry)))
+			}
 			for i := int64(0); i < op.Arg(2); i++ {
 				s.l1.Mine(r.U64(), s.l1g.Fill(r, int(cfg["l1_density"])))
 			}
 			rec.Stats.Inc("l1_reorgs")
 			if s.l1synced > keep && (s.l1staleFrom == 0 || keep+1 < s.l1staleFrom) {
 				s.l1staleFrom = keep + 1
+				s.l1staleHold = r.Range(2, 12)
 				rec.Stats.Inc("l1_reorgs_of_blocks_the_l1_info_store_holds")
 			}
 			rec.Step(fmt.Sprintf("K%d", d))
